@@ -1,7 +1,6 @@
 package bounded
 
 import (
-	"strings"
 	"encoding/json"
 	"fmt"
 	"testing"
@@ -48,6 +47,9 @@ func TestC11(t *testing.T) {
 		"SELECT x.m, y.id FROM r x JOIN (SELECT id FROM t WHERE EXISTS (SELECT v FROM k)) y ON x.m = y.id",
 		"SELECT id, AWAIT((SELECT v FROM k)) AS s FROM t",
 		"SELECT id, (SELECT v FROM k) AS s, * FROM t",
+		"SELECT DISTINCT * FROM t x JOIN (SELECT id, (SELECT v FROM k) AS s FROM t) y ON x.id = y.id",
+		"SELECT id FROM t WHERE id IN (SELECT DISTINCT z FROM `<-t` z)",
+		"SELECT id FROM t WHERE EXISTS (SELECT DISTINCT * FROM `<-t` z JOIN `<-r` w ON z.a = w.m)",
 		"SELECT id, ZZFAIL() AS f FROM t WHERE a > 0",
 		"SELECT id FROM t WHERE ZZFAIL() = a",
 		"SELECT id FROM t WHERE a < 10 AND ZZFAIL() >= 1",
@@ -90,14 +92,9 @@ func TestC11(t *testing.T) {
 				if err != nil || string(after) != string(before) {
 					class := "unclassified"
 					if failed {
-						// the recorded finding: a row-scoped subquery in the select list, or EXISTS, defers the removal of the
-						// navigation entry to post processing, which a failed query never reaches. A failed query WITHOUT
-						// such a subquery has no excuse: comparisons take the entry off on every way out.
-						class = "input-changed-after-a-failed-query-without-a-deferred-removal"
-						up := strings.ToUpper(qq)
-						if strings.Contains(up, "(SELECT") {
-							class = "input-changed-after-a-failed-query"
-						}
+						// nothing is set on the caller's rows any more (the navigation entry goes on a copy), so a failed
+						// query has no excuse either; the class only says on which way out the change was seen
+						class = "input-changed-after-a-failed-query"
 					}
 					r.violateClass(class, "%q (wrapped=%v, failure at invocation %d, query failed=%v): input changed: marshal error %v; after = %.200s", qq, wrapped, k, failed, err, after)
 				}
